@@ -41,8 +41,8 @@ func c18Cooperative(t *tape.Tape, tier Tier, res *Result) {
 	res.Kinds = kindsOf(spec)
 	fp0 := sched.Take(shared)
 	reg0 := registryKeys()
-	ops := c18Ops(shared)
-	soloOps := c18Ops(twin)
+	ops := c18Ops(shared, c18Fresh(spec))
+	soloOps := c18Ops(twin, c18Fresh(spec))
 	// solo results, and the number of yields each op passes (measured with a counting hook)
 	solo := make([]string, len(ops))
 	yieldsOf := make([]int, len(ops))
